@@ -5,6 +5,9 @@ use serde::{Deserialize, Deserializer, Serialize, Serializer};
 use std::fmt;
 use std::str::FromStr;
 #[cfg(feature = "verif-hooks")]
+#[allow(unused_imports)]
+use std::sync::atomic::*;
+#[cfg(feature = "verif-hooks")]
 use crate::verif::{AtomicU64, AtomicUsize};
 #[cfg(feature = "verif-hooks")]
 use std::sync::atomic::Ordering;
